@@ -272,6 +272,7 @@ pub fn run(run: &Run) {
         check_case(run, "C03", "seq", s, &|s| gen_seq(s, max_items, depth), &run_seq, &witness_seq,
             &|c, s| { run.nontrivial(fnv(&c.text)); for l in &s.labels { run.count(&format!("label:{}", l)); } if i < 5 { run.sample(witness_seq(c)); } });
     });
+    if !run.quick() { crate::lanes::miri(run, "parse", &[1, 2, 3, 4, 5, 6, 7, 8], None); }
     let n2 = run.n(300_000, 5_000_000);
     par_for(n2, |i| {
         let s = Src::fresh(Rng::derive(run.seed, 33, i));
